@@ -34,7 +34,7 @@ def quilt_cases(draw):
     op = draw(st.sampled_from(OPS))
     axis = draw(st.integers(0, 1))
     retain = draw(st.booleans())
-    ascending_only = draw(st.integers(0, 3)) > 0
+    ascending_only = draw(st.integers(0, 3)) < 3
     backed = draw(st.booleans())
     k = draw(st.sampled_from([3, 2, 1, 4, 5]))
     w = draw(st.integers(1, 4))       # size of the aligned (opposite) axis
@@ -417,8 +417,8 @@ def tag(case, f):
 
 
 SUBS = [
-    Sub('quilt', quilt_cases(), check_quilt, quick=1200, thorough=40000, tag=tag,
+    Sub('quilt', quilt_cases(), check_quilt, quick=4800, thorough=40000, tag=tag,
         rule='Quilt op == same op on the concatenated Frame; loaded count bounded by max_persist'),
-    Sub('batch', batch_cases(), check_batch, quick=500, thorough=16000, tag=tag,
+    Sub('batch', batch_cases(), check_batch, quick=2000, thorough=16000, tag=tag,
         rule='Batch chain == per-frame chain; exports concatenate the member results'),
 ]
